@@ -388,7 +388,7 @@ CORPUS = [
     (':is(a,>){@extend a}', {"syntax": "scss"}),       # F5, through @extend
     ('a{b:simple-selectors(">")}', {"syntax": "scss"}),            # F6 was panic@builtin/functions/selector.rs:44
     ('@use "sass:selector";a{b:selector.simple-selectors("> a")}', {"syntax": "scss"}),   # F6
-    # found by other checks, NOT fixed yet (known findings keyed by panic site):
+    # found by other checks, fixed since (13dfaab, 5015dbf): regression cases
     ('a{b:selector-replace("a.x", ".x", "b")}', {"syntax": "scss"}),                                        # X1
     ('.y{x:y} @media screen{.y{@extend .y}} @media print{.y#i{@extend .y}}', {"syntax": "scss"}),            # X2
     ("/]/*#*[", {"syntax": "sass"}),                   # D2 (fixed): looped forever
@@ -398,7 +398,7 @@ CORPUS = [
 ]
 
 CORPUS_FILES = [
-    # X3 / X4: module map views (utils/map_view.rs), not fixed yet
+    # X3 / X4: module map views (utils/map_view.rs), fixed since (cb68e5b, e12a9ef, 7ee64b7): regression cases
     ({"_mid.scss": '@forward "a" as p-* with ($z: 7 !default);', "_a.scss": "$z: 1 !default; $x: 2 !default;",
       "main.scss": '@use "mid" with ($p-x: 1);'}, "main.scss"),
     ({"_mid.scss": '@forward "a";', "_a.scss": "$z: 1;", "main.scss": '@use "mid"; mid.$nope: 1;'}, "main.scss"),
